@@ -153,6 +153,23 @@ def run(ck, prog, ctx):
                 ck.ob("DOM", "%s/success/%d/offset==declared" % (name, i), ok_decl, "%s: success %s" % (name, "also requires the consumed offset to equal the declared record length" if ok_decl else "does not compare the consumed offset with the declared record length"), where=b.where(line))
     ck.floor("DOM", "decoders", n_dec, 3)
 
+    # ------------------------------------------------------------------ DOM: from_binary hands the WHOLE file to from_bytes
+    fbin = prog.body(codec.ONT + "from_binary")
+    if ck.anchor("DOM", "Ontology::from_binary", fbin):
+        fam_b = prog.family(fbin)
+        reads = sorted({t.callee.method for fb in fam_b for _, t in fb.calls() if t.callee.method in ("read_to_end", "read", "read_exact", "read_to_string", "read_buf", "take", "read_vectored") and "std::io" in (t.callee.name or "") + (t.callee.def_args or "")}
+                       | {"fs::read" for fb in fam_b for _, t in fb.calls() if (t.callee.name or "").startswith("std::fs::read")})
+        whole = bool(reads) and set(reads) <= {"read_to_end", "fs::read"}
+        ck.ob("DOM", "from_binary/whole-file", whole, "from_binary reads the file with %s%s" % (", ".join(reads) or "no recognised call", "" if whole else " (expected read_to_end / fs::read only: a bounded or single read can stop before the end of the file)"), where=fbin.where())
+        fbc = [(fb, bi, t) for fb in fam_b for bi, t in fb.calls() if t.callee.res == codec.ONT + "from_bytes"]
+        if len(fbc) != 1:
+            ck.undecided("DOM", "from_binary/all-bytes", "the call of from_bytes is not recognised", where=fbin.where())
+        else:
+            fb, bi, t = fbc[0]
+            at = pvn.of_operand(fb, t.args[0])
+            cut = sorted({a[1].rsplit("::", 1)[-1] for a in at if a[0] == "call" and a[3] == fb.id and a[1].rsplit("::", 1)[-1] in ("index", "get", "split_at", "truncate", "drain", "split_off", "take", "skip", "chunks", "first", "last", "trim_ascii", "trim_ascii_end", "trim_ascii_start", "strip_suffix", "strip_prefix")})
+            ck.ob("DOM", "from_binary/all-bytes", not cut, "from_binary hands %s to from_bytes" % ("all the bytes it read" if not cut else "the bytes after `%s`" % ", ".join(cut)), where=fb.where(t.line))
+
     # ------------------------------------------------------------------ DOM: the record readers stop only when nothing is left
     from props import layout as _layout
     n_end = 0
